@@ -162,6 +162,11 @@ def run(chk):
         except UnicodeDecodeError:
             w = "ERR Eval"
         add("string(b)", [("b", vy(b))], w)
+    for s_ in ["\ufeff", "\ufeffabc", "\ufeff\ufeff", "a\ufeff", "\ufffe", "\u200b\ufeff", "\ufeff ", " \ufeff", "\u00ef\u00bb\u00bf", "\x00abc",
+               "\u2060x", "\ufffd", "\ufeff\u00e9"]:
+        add("[string(bytes(s)) == s, bytes(s), string(bytes(s))]", [("s", vs(s_))], "OK " + vlist([vb(True), vy(s_.encode()), vs(s_)]))
+        add("string(b)", [("b", vy(s_.encode()))], "OK " + vs(s_))
+        add("size(string(b)) == size(b)", [("b", vy(s_.encode()))], "OK b1")
     # other constructors on every kind of value: identities, dyn, type, and rejections
     for name, v in STD_BINDS:
         add("dyn(x) == x || type(x) == double", [("x", v)], "OK b1" if name not in ("m1", "m0", "l0") else None)
